@@ -3,6 +3,7 @@ import IgrisModel.C12.LemParse
 import IgrisModel.C12.Orig
 import IgrisModel.C12.LemEnd
 import IgrisModel.C12.LemDprint
+import IgrisModel.C12.LemF32
 /-!
   C12 — property theorems.
 
@@ -17,13 +18,19 @@ import IgrisModel.C12.LemDprint
   strtod returns to within a few ulps and reports the end of the literal, for
   the float, double and libc strtod/atof entry points alike."
 
-  Level "proof (partial)": the clauses about shape, grammar and accuracy over
-  EXACT arithmetic (`FloatLike Rat`) are theorems below.  NOT proved (named
-  gap): that the roundings of binary32/binary64 arithmetic in the digit loops
-  keep every digit in 0..9 and the error within "one unit plus representation
-  error" — that part is carried by the correspondence run (all 2^32 binary32
-  patterns on the compiled code against an error-bound oracle, and the software
-  binary32/64 instance of this same model against the code bit for bit).
+  Level "proof (partial)".  Sections A-E: shape for every arithmetic instance,
+  accuracy / grammar over EXACT arithmetic (`FloatLike Rat`, theorems `_Q`), debug
+  printers, historical witnesses.  Sections F-H (extension round): IEEE-754
+  arithmetic is part of the model — the software binary32/binary64 the driver
+  runs is PROVED to be round-to-nearest arithmetic (`softfloat_rounds_to_nearest`,
+  instances `IEEE F32`, `IEEE F64`), and the accuracy clauses are THEOREMS ABOUT
+  THAT FLOAT INSTANCE: `ftoa_error_bound`, `ftoa_total`,
+  `ftoa_within_one_unit_partial` (+ 2 witnesses), `f64toa_error_bound`
+  (+ witness), `atof64_error_bound_partial`, `atof64_budget`,
+  `atof64_exact_class` (+ 2 witnesses).  NOT proved: an IEEE error bound for
+  `igris_atof32` (division has no rounding law yet) and for the debug printers;
+  the agreement of the soft-float with the FPU and of the transcription with the
+  C code is tested on every run, not proved.
 -/
 namespace Igris.C12
 open Spec FloatLike
@@ -325,5 +332,285 @@ theorem dprintOrig_witness :
     dprintDouble (1 : Rat) 3 = some [49, 46, 48, 48, 48] ∧
     dprintDouble (27 / 10 : Rat) 0 = some [51] := by
   refine ⟨?_, ?_, ?_, ?_, ?_, ?_⟩ <;> decide +kernel
+
+
+/-! ## F. IEEE-754 arithmetic is part of the model
+
+  `RN B v r` (Ieee.lean) = "`r` is the non-negative rational `v` rounded to nearest in
+  the binary format `B`": `r` is a value of the format, no value of the format is
+  closer to `v`, and the standard model `r = v (1 + δ)`, `|δ| ≤ u = 2^-prec` (below the
+  normal range: absolute error ≤ half the smallest subnormal).  `RNs` is the
+  sign-symmetric version.  The software binary32/binary64 of Model.lean — the
+  arithmetic the driver runs and the harness compares with the FPU operation by
+  operation — rounds in exactly one place, `roundPack`. -/
+
+/-- THE MODEL LEMMA: `roundPack f s m e` is a finite encoding of sign `s` whose
+    magnitude is `m * 2^e` rounded to nearest (no overflow below `2^bias`), for
+    every format with ≥ 2 exponent and ≥ 1 fraction bits (binary32, binary64). -/
+theorem softfloat_rounds_to_nearest (f : Fmt) (hf : f.WF) (s : Bool) (m : Nat) (e : Int) (hm : 0 < m)
+    (hv : (m : Rat) * pow2 e < pow2 f.bias) :
+    FinEnc f (roundPack f s m e) ∧
+    ∃ M e', decode f (roundPack f s m e) = .fin s M e' ∧ M < 2 ^ (f.mbits + 1) ∧ f.bin.emin ≤ e' ∧
+      RN f.bin ((m : Rat) * pow2 e) ((M : Rat) * pow2 e') :=
+  roundPack_rn f hf s m e hm hv
+
+example : (3 : Rat) * pow2 5 < pow2 b32.bias := by decide +kernel
+
+/-- the standard model of rounding: in the normal range `|fl(v) - v| ≤ 2^-prec * v` -/
+theorem rounding_standard_model {B : BinFmt} {v r : Rat} (h : RN B v r) (hv : B.tiny ≤ v) :
+    r - v ≤ B.u * v ∧ v - r ≤ B.u * v :=
+  h.rel (Or.inr hv)
+
+/-- every operation of the software binary32 is the exact operation followed by
+    one rounding to nearest: `+`, `-`, `*`, int -> float, the statement `f *= 10.0` of
+    the digit loop (the instance `IEEE F32` of SoftOps.lean packages all of them,
+    `IEEE F64` the same for binary64) -/
+theorem binary32_operations_round_once (x y : F32) (hx : x.Fin) (hy : y.Fin) :
+    (InRange binary32 (x.val + y.val) → (add x y).Fin ∧ RNs binary32 (x.val + y.val) (add x y).val) ∧
+    (InRange binary32 (x.val - y.val) → (sub x y).Fin ∧ RNs binary32 (x.val - y.val) (sub x y).val) ∧
+    (InRange binary32 (x.val * y.val) → (mul x y).Fin ∧ RNs binary32 (x.val * y.val) (mul x y).val) ∧
+    (InRange binary32 (x.val * 10) → (mul10 x).Fin ∧ RNs binary32 (x.val * 10) (mul10 x).val) ∧
+    trunc x = some (truncQ x.val) :=
+  ⟨IEEE.add_rn x y hx hy, IEEE.sub_rn x y hx hy, IEEE.mul_rn x y hx hy, IEEE.mul10_rn x hx, IEEE.trunc_val x hx⟩
+
+/-- the same for binary64, and the cast `(float)d` is one rounding to nearest binary32 -/
+theorem binary64_operations_round_once (x y : F64) (hx : x.Fin) (hy : y.Fin) :
+    (InRange binary64 (x.val + y.val) → (add x y).Fin ∧ RNs binary64 (x.val + y.val) (add x y).val) ∧
+    (InRange binary64 (x.val * y.val) → (mul x y).Fin ∧ RNs binary64 (x.val * y.val) (mul x y).val) ∧
+    (InRange binary32 x.val → x.toF32.Fin ∧ RNs binary32 x.val x.toF32.val) :=
+  ⟨IEEE.add_rn x y hx hy, IEEE.mul_rn x y hx hy, f64_toF32_rn x hx⟩
+
+/-! ## G. the renderer over binary32 arithmetic — error bound, totality, doubles -/
+
+/-- ERROR BOUND of `igris_f32toa` as the code is (binary32 arithmetic, one rounding
+    per operation).  For EVERY finite binary32 `x` with `|x| < 2^31` and EVERY
+    precision the routine succeeds (no undefined behaviour), every character is a
+    digit, the integer part is canonical, there are exactly `p` fraction digits
+    (`p` = clamped / automatic precision ≤ 10), and the printed number `T / 10^p`
+    (`T` = the digits read as an integer) satisfies, for p > 0,
+        | T - |x| * 10^p |  ≤  1/2 + 2^-24 * 10^p * (|x| + 2)      (lower side strict)
+    i.e. |printed - |x|| ≤ half a unit of the last digit + 2^-24 * (|x| + 2) — "one
+    unit of the last printed digit plus the binary representation error"; for
+    p = 0 the integer part is exact (truncation). -/
+theorem ftoa_error_bound (x : F32) (prec : Int) (hx : x.Fin) (hr : absQ x.val < 2147483648) :
+    ∃ (p : Nat) (ip fr : List Nat),
+      p = effPrec (if lt x (ofInt 0) then FloatLike.neg x else x) prec ∧ p ≤ 10 ∧
+      f32toa x prec = some ((if x.val < 0 then [45] else []) ++ ip ++ (if p ≠ 0 then 46 :: fr else [])) ∧
+      AllDigits ip ∧ Canonical ip ∧ ip.length ≤ 10 ∧ AllDigits fr ∧ fr.length = p ∧
+      (p ≠ 0 →
+        absQ x.val * (10 : Rat) ^ p - 1 / 2 - (10 : Rat) ^ p * (absQ x.val + 2) / 16777216
+          < ((valL (ip ++ fr) : Nat) : Rat) ∧
+        ((valL (ip ++ fr) : Nat) : Rat)
+          ≤ absQ x.val * (10 : Rat) ^ p + 1 / 2 + (10 : Rat) ^ p * (absQ x.val + 2) / 16777216) ∧
+      (p = 0 → absQ x.val - 1 < ((valL (ip ++ fr) : Nat) : Rat) ∧ ((valL (ip ++ fr) : Nat) : Rat) ≤ absQ x.val) :=
+  ftoa_error_bound_core x prec hx hr
+
+/-- the hypotheses are satisfiable: 0x42c80001 (100.00000762939453125) -/
+example : (⟨0x42c80001⟩ : F32).Fin ∧ absQ (⟨0x42c80001⟩ : F32).val < 2147483648 := by
+  constructor
+  · unfold F32.Fin FinEnc; decide +kernel
+  · decide +kernel
+
+/-- TOTALITY (the `= some` hypothesis of `ftoa_shape` / `ftoa_length` discharged): for
+    every finite binary32 below 2^31 in magnitude, every precision and every buffer of
+    at least 23 bytes the call is defined, writes text + NUL, leaves the rest of the
+    buffer alone and returns the buffer. -/
+theorem ftoa_total (x : F32) (prec : Int) (buf : List Nat) (hx : x.Fin) (hr : absQ x.val < 2147483648)
+    (hb : 23 ≤ buf.length) :
+    ∃ t, f32toa x prec = some t ∧ t.length + 1 ≤ 23 ∧
+      f32toaBuf x prec buf = some (t ++ 0 :: buf.drop (t.length + 1), 0) := by
+  obtain ⟨p, ip, fr, _, _, h, _⟩ := ftoa_error_bound_core x prec hx hr
+  have hl := ftoa_length x prec _ h
+  exact ⟨_, h, hl, (ftoa_buffer x prec _ buf h).1 (by omega)⟩
+
+/-- "WITHIN ONE UNIT of the last printed digit" holds where the float has the digits:
+    whenever `10^p * (|x| + 2) ≤ 2^23` (e.g. p ≤ 6 for |x| ≤ 6, p ≤ 5 for |x| ≤ 81,
+    p ≤ 2 for |x| ≤ 83884; the automatic-precision table keeps 10^p * (|x| + 2) below
+    3.1e6 < 2^23, but that connection is not a theorem here).  The statement without
+    this hypothesis is false, see the two witnesses. -/
+theorem ftoa_within_one_unit_partial (x : F32) (prec : Int) (hx : x.Fin) (hr : absQ x.val < 2147483648)
+    (hd : (10 : Rat) ^ effPrec (if lt x (ofInt 0) then FloatLike.neg x else x) prec * (absQ x.val + 2) ≤ 8388608) :
+    ∃ (p : Nat) (ip fr : List Nat),
+      p = effPrec (if lt x (ofInt 0) then FloatLike.neg x else x) prec ∧
+      f32toa x prec = some ((if x.val < 0 then [45] else []) ++ ip ++ (if p ≠ 0 then 46 :: fr else [])) ∧
+      absQ x.val * (10 : Rat) ^ p - 1 < ((valL (ip ++ fr) : Nat) : Rat) ∧
+      ((valL (ip ++ fr) : Nat) : Rat) ≤ absQ x.val * (10 : Rat) ^ p + 1 := by
+  obtain ⟨p, ip, fr, hp, _, h, _, _, _, _, _, h9, h10⟩ := ftoa_error_bound_core x prec hx hr
+  refine ⟨p, ip, fr, hp, h, ?_⟩
+  rw [← hp] at hd
+  by_cases hp0 : p = 0
+  · have := h10 hp0
+    subst hp0
+    simp at this ⊢
+    constructor <;> grind
+  · have := h9 hp0
+    constructor <;> grind
+
+example : (10 : Rat) ^ effPrec (if lt (⟨0x3f7fffff⟩ : F32) (ofInt 0) then FloatLike.neg (⟨0x3f7fffff⟩ : F32) else ⟨0x3f7fffff⟩) 6
+    * (absQ (⟨0x3f7fffff⟩ : F32).val + 2) ≤ 8388608 := by decide +kernel
+
+/-- witness 1: already at precision 7 the printed value can be more than one unit of
+    the last digit away: 0x4033b239 = 2.80775284767150878906 prints as 2.8077527
+    (1.47 units low) -/
+theorem ftoa_one_unit_witness_p7 :
+    f32toa (⟨0x4033b239⟩ : F32) 7 = some [50, 46, 56, 48, 55, 55, 53, 50, 55] ∧
+    (⟨0x4033b239⟩ : F32).val * (10 : Rat) ^ 7 - 28077527 > 1 := by
+  constructor <;> decide +kernel
+
+/-- witness 2 (the audit's): 0x3f7fffff = 1 - 2^-24 = 0.99999994039... at precision 10
+    prints as 0.9999999046, 357 units of the last digit low (exact arithmetic prints
+    0.9999999404) — well inside the bound `1/2 + 2^-24 * 10^10 * 3 ≈ 1789` of `ftoa_error_bound` -/
+theorem ftoa_one_unit_witness_p10 :
+    f32toa (⟨0x3f7fffff⟩ : F32) 10 = some [48, 46, 57, 57, 57, 57, 57, 57, 57, 48, 52, 54] ∧
+    f32toa ((⟨0x3f7fffff⟩ : F32).val) 10 = some [48, 46, 57, 57, 57, 57, 57, 57, 57, 52, 48, 52] ∧
+    (⟨0x3f7fffff⟩ : F32).val * (10 : Rat) ^ 10 - 9999999046 > 357 := by
+  refine ⟨?_, ?_, ?_⟩ <;> decide +kernel
+
+/-- DOUBLES (`igris_f64toa` = `igris_ftoa`): the argument is cast to float first.  For
+    every finite double with `|d| ≤ 2^31 - 128` the cast `y = (float)d` is a finite
+    binary32 of the same sign with `|y - d| ≤ 2^-24 * (|d| + 2^-126)` (one rounding to
+    nearest) and the text is the rendering of `y`, for which `ftoa_error_bound` holds:
+    what is guaranteed for a double is the accuracy of a float, never more. -/
+theorem f64toa_error_bound (d : F64) (prec : Int) (hd : d.Fin) (hr : absQ d.val ≤ 2147483520) :
+    ∃ (y : F32) (p : Nat) (ip fr : List Nat),
+      y = d.toF32 ∧ y.Fin ∧ (d.val < 0 → y.val ≤ 0) ∧ (0 ≤ d.val → 0 ≤ y.val) ∧
+      absQ (y.val - d.val) ≤ (absQ d.val + pow2 (-126)) / 16777216 ∧
+      p = effPrec (if lt y (ofInt 0) then FloatLike.neg y else y) prec ∧ p ≤ 10 ∧
+      f64toa F64.toF32 d prec = some ((if y.val < 0 then [45] else []) ++ ip ++ (if p ≠ 0 then 46 :: fr else [])) ∧
+      AllDigits ip ∧ Canonical ip ∧ ip.length ≤ 10 ∧ AllDigits fr ∧ fr.length = p ∧
+      (p ≠ 0 →
+        absQ y.val * (10 : Rat) ^ p - 1 / 2 - (10 : Rat) ^ p * (absQ y.val + 2) / 16777216
+          < ((valL (ip ++ fr) : Nat) : Rat) ∧
+        ((valL (ip ++ fr) : Nat) : Rat)
+          ≤ absQ y.val * (10 : Rat) ^ p + 1 / 2 + (10 : Rat) ^ p * (absQ y.val + 2) / 16777216) ∧
+      (p = 0 → absQ y.val - 1 < ((valL (ip ++ fr) : Nat) : Rat) ∧ ((valL (ip ++ fr) : Nat) : Rat) ≤ absQ y.val) := by
+  obtain ⟨hf, hle, hs1, hs2, herr⟩ := cast_core d hd hr
+  obtain ⟨p, ip, fr, h1, h2, h3, h4⟩ := ftoa_error_bound_core d.toF32 prec hf (by grind)
+  exact ⟨d.toF32, p, ip, fr, rfl, hf, hs1, hs2, herr, h1, h2, h3, h4⟩
+
+example : (⟨0x408F40FCD6E9B9CB⟩ : F64).Fin ∧ absQ (⟨0x408F40FCD6E9B9CB⟩ : F64).val ≤ 2147483520 := by
+  constructor
+  · unfold F64.Fin FinEnc; decide +kernel
+  · decide +kernel
+
+/-- witness (the audit's): the double 1000.123456789 at precision 10 prints as
+    1000.1234741210 — 173 320 units of the last digit away from the double (the float
+    cast alone moves it by 1.7e-5), so no "one unit" statement about doubles holds -/
+theorem f64toa_cast_witness :
+    f64toa F64.toF32 (⟨0x408F40FCD6E9B9CB⟩ : F64) 10 =
+      some [49, 48, 48, 48, 46, 49, 50, 51, 52, 55, 52, 49, 50, 49, 48] ∧
+    10001234741210 - (⟨0x408F40FCD6E9B9CB⟩ : F64).val * (10 : Rat) ^ 10 > 173319 := by
+  constructor <;> decide +kernel
+
+
+/-! ## H. the parser over binary64 arithmetic — error bound in units of u = 2^-53
+
+  `atofCost 53 L` (LemAtof.lean) is the rounding budget `k(L)` of a literal in HALF
+  units of `u`: each digit step `val = val * 10.0 + d` is exact (0) while the
+  accumulated integer stays below 2^53 and nothing was rounded before, otherwise two
+  roundings (4); then `d = exponent - #fraction digits` scaling steps: `val *= 10.0`
+  costs one rounding (2) unless still exact, `val *= 0.1` costs 3 (one rounding plus
+  the error `u/2` of the constant 0.1).  `u * |value| ≤ ulp(value)`, so `k/2` is a
+  bound in ulps. -/
+
+/-- ERROR BOUND of `igris_atof64` (= igris_strtod / strtod / atof) as the code is, over
+    binary64 arithmetic: for EVERY literal of the grammar followed by any tail that does
+    not continue it, provided the digit string read as an integer and the value stay
+    below 2^1022 (no intermediate overflow — see the witness) and the value is zero or at
+    least 2^-1021 (no gradual underflow), the result is finite, the reported end is
+    the end of the literal, and
+        |result - value| ≤ 1.01 * (k/2) * 2^-53 * |value|,   k = atofCost 53 L. -/
+theorem atof64_error_bound_partial (L : Literal) (rest : List Nat) (hwf : L.WF) (hst : Stops L rest)
+    (hD : 2 * ((valL (L.ip ++ L.fracDigits) : Nat) : Rat) ≤ pow2 1023)
+    (hV : 2 * absQ L.value ≤ pow2 1023)
+    (hN : L.value = 0 ∨ pow2 (-1021) ≤ absQ L.value)
+    (hn : (atofCost 53 L : Rat) * pow2 (-53) ≤ 1 / 100) :
+    ∃ r : F64, atof64 (F := F64) (L.text ++ rest) = some (r, L.text.length) ∧ r.Fin ∧
+      absQ (r.val - L.value) ≤ (101 / 200 : Rat) * (atofCost 53 L : Rat) * pow2 (-53) * absQ L.value := by
+  have h2 := binary64_tiny2
+  exact atof64_error_bound (F := F64) L rest hwf hst (by decide) hD hV (by rw [fmtOf_F64, h2]; exact hN) hn
+
+/-- closed forms of the budget: k ≤ 4 * #digits + 3 * |d| for every literal; k ≤ 3 * |d|
+    when the digit string is below 2^53 (all literals of at most 15 digits); k = 0 (the
+    result is EXACTLY the decimal value, hence what strtod returns) when
+    digits * 10^d is an integer below 2^53 -/
+theorem atof64_budget (L : Literal) :
+    atofCost 53 L ≤ 4 * (L.ip ++ L.fracDigits).length + 3 * (L.expValue - (L.fracDigits.length : Int)).natAbs ∧
+    (valL (L.ip ++ L.fracDigits) < 2 ^ 53 →
+      atofCost 53 L ≤ 3 * (L.expValue - (L.fracDigits.length : Int)).natAbs) ∧
+    (0 ≤ L.expValue - (L.fracDigits.length : Int) →
+      valL (L.ip ++ L.fracDigits) * 10 ^ (L.expValue - (L.fracDigits.length : Int)).toNat < 2 ^ 53 →
+      atofCost 53 L = 0) :=
+  ⟨atofCost_le 53 L, atofCost_le_of_exact_mantissa 53 L, atofCost_zero 53 L⟩
+
+/-- the exact class: integers and short decimals with a non-negative net exponent
+    (`digits * 10^d < 2^53`) are parsed without any error -/
+theorem atof64_exact_class (L : Literal) (rest : List Nat) (hwf : L.WF) (hst : Stops L rest)
+    (hd : 0 ≤ L.expValue - (L.fracDigits.length : Int))
+    (h : valL (L.ip ++ L.fracDigits) * 10 ^ (L.expValue - (L.fracDigits.length : Int)).toNat < 2 ^ 53) :
+    ∃ r : F64, atof64 (F := F64) (L.text ++ rest) = some (r, L.text.length) ∧ r.Fin ∧ r.val = L.value := by
+  have hc := atofCost_zero 53 L hd h
+  have hDn : valL (L.ip ++ L.fracDigits) < 2 ^ 53 := by
+    have h1 : 1 ≤ 10 ^ (L.expValue - (L.fracDigits.length : Int)).toNat := Nat.one_le_pow _ _ (by omega)
+    have := Nat.le_mul_of_pos_right (valL (L.ip ++ L.fracDigits)) h1
+    omega
+  have hbig : ((2 ^ 54 : Nat) : Rat) ≤ pow2 1023 := by
+    rw [← pow2_nat]; exact pow2_mono (by decide)
+  have hV0 := absQ_value53 L hd h
+  obtain ⟨r, h1, h2, h3⟩ := atof64_error_bound_partial L rest hwf hst
+    (by
+      have : ((valL (L.ip ++ L.fracDigits) : Nat) : Rat) < ((2 ^ 53 : Nat) : Rat) := Rat.natCast_lt_natCast.mpr hDn
+      have e : ((2 ^ 54 : Nat) : Rat) = 2 * ((2 ^ 53 : Nat) : Rat) := by rw [← Rat.natCast_ofNat, ← Rat.natCast_mul]
+      grind)
+    (by
+      obtain ⟨N, hN, hNlt⟩ := hV0
+      have : ((N : Nat) : Rat) < ((2 ^ 53 : Nat) : Rat) := Rat.natCast_lt_natCast.mpr hNlt
+      have e : ((2 ^ 54 : Nat) : Rat) = 2 * ((2 ^ 53 : Nat) : Rat) := by rw [← Rat.natCast_ofNat, ← Rat.natCast_mul]
+      grind)
+    (by
+      obtain ⟨N, hN, _⟩ := hV0
+      by_cases hz : N = 0
+      · left; have : absQ L.value = 0 := by rw [hN, hz]; rfl
+        unfold absQ at this; split at this <;> grind
+      · right
+        have h1 : pow2 (-1021) ≤ pow2 0 := pow2_mono (by decide)
+        have : (1 : Rat) ≤ (N : Rat) := by
+          have : ((1 : Nat) : Rat) ≤ (N : Rat) := Rat.natCast_le_natCast.mpr (by omega)
+          simpa using this
+        simp at h1; grind)
+    (by rw [hc]; simp; grind)
+  refine ⟨r, h1, h2, ?_⟩
+  rw [hc] at h3
+  simp at h3
+  unfold absQ at h3; split at h3 <;> grind
+
+
+/-- the hypotheses of `atof64_error_bound_partial` are satisfiable: "1e-300" followed by NUL
+    (budget 900 half units: the bound is 454.5 u |value|) -/
+example :
+    let L : Literal := ⟨none, [49], none, some (101, some true, [51, 48, 48])⟩
+    2 * ((valL (L.ip ++ L.fracDigits) : Nat) : Rat) ≤ pow2 1023 ∧ 2 * absQ L.value ≤ pow2 1023 ∧
+    pow2 (-1021) ≤ absQ L.value ∧ atofCost 53 L = 900 ∧ (atofCost 53 L : Rat) * pow2 (-53) ≤ 1 / 100 := by
+  decide +kernel
+
+/-- "within a few ulps of strtod" is false for large exponents — witness "1e-300": the
+    routine returns the encoding 0x01a56e1fc2f8f3be, the correctly rounded value (what
+    strtod returns) is 0x01a56e1fc2f8f359: 101 units in the last place apart, which is
+    more than 50 u |value| (the theorem's bound for this literal is 454.5 u |value|) -/
+theorem atof64_ulp_witness :
+    atof64 (F := F64) [49, 101, 45, 51, 48, 48, 0] = some (⟨118622047889322942⟩, 6) ∧
+    sfLit b64 1 300 = 118622047889322841 ∧
+    (⟨118622047889322942⟩ : F64).val - 1 / (10 : Rat) ^ 300 > 50 * pow2 (-53) * (1 / (10 : Rat) ^ 300) := by
+  refine ⟨?_, ?_, ?_⟩ <;> decide +kernel
+
+set_option maxRecDepth 100000 in
+/-- the hypothesis `hD` cannot be dropped — witness: "1" followed by 310 zeros and
+    "e-310" denotes 1, but the digit string overflows binary64 before the scaling loop
+    runs, and the routine returns +inf (0x7ff0000000000000); end offset 316 is right -/
+theorem atof64_mantissa_overflow_witness :
+    atof64 (F := F64) (49 :: List.replicate 310 48 ++ [101, 45, 51, 49, 48, 0]) =
+      some (⟨0x7ff0000000000000⟩, 316) ∧
+    (⟨none, 49 :: List.replicate 310 48, none, some (101, some true, [51, 49, 48])⟩ : Literal).value = 1 := by
+  constructor <;> decide +kernel
 
 end Igris.C12
